@@ -175,7 +175,67 @@ theorem C09_sel_survives_query (op : Opts) (before s : TS) :
   exact (afterActions_fields op before s).2.2
 
 /- Non-vacuity. -/
-example : CxOk { results := [0, 1, 2] } ∧ SelOk ⟨2, false, .default, 5, 3, 3, fun _ => true, fun _ _ => [0, 1, 2], fun _ => []⟩ { results := [0, 1, 2] } := by
+example : CxOk { results := [0, 1, 2] } ∧ SelOk ⟨2, false, .default, 5, 3, 3, false, fun _ => true, fun _ _ => [0, 1, 2], fun _ => []⟩ { results := [0, 1, 2] } := by
   simp [CxOk, SelOk]
+
+end Fzf.Props.C09
+
+namespace Fzf.Props.C09
+open Fzf Fzf.Terminal
+
+/-- **`--track`: the cursor follows its item.** When a new result list arrives (query change,
+    exclusion, re-sort) and the item under the cursor is still among the results, the cursor is on
+    that same item afterwards, wherever it moved in the list. -/
+theorem C09_track_follows (op : Opts) (s : TS) (new : List Nat) (i : Nat) (ht : op.track = true)
+    (hne : s.results.length > 0) (hc : currentItem s = some i) (hin : i ∈ new) :
+    currentItem (updateList op s new) = some i := by
+  unfold updateList
+  simp only [ht, if_true, hne, hc]
+  cases hf : new.findIdx? (· == i) with
+  | none =>
+    rw [List.findIdx?_eq_none_iff] at hf
+    have := hf i hin
+    simp at this
+  | some k =>
+    simp only []
+    rw [List.findIdx?_eq_some_iff_getElem] at hf
+    obtain ⟨hk, hki, _⟩ := hf
+    unfold currentItem
+    simp only []
+    have h0 : (0 : Int) ≤ (k : Int) := Int.natCast_nonneg k
+    have h1 : (k : Int) < (new.length : Int) := by exact_mod_cast hk
+    simp only [h0, h1, and_self, if_true, Int.toNat_natCast]
+    rw [List.getElem?_eq_getElem hk]
+    simp at hki
+    rw [hki]
+
+/-- An excluded item never comes back into the results (until a reload), whatever the query. -/
+theorem C09_excluded_stays_out (op : Opts) (before s : TS) (i : Nat) (hi : i ∈ s.excluded)
+    (hchg : s.excluded ≠ before.excluded) : i ∉ (afterActions op before s).results := by
+  unfold afterActions
+  dsimp only
+  have hcond : (List.take maxPatternLength s.input != before.input) = true ∨ (s.sort != before.sort) = true ∨
+      (s.excluded != before.excluded) = true := Or.inr (Or.inr (by simpa using hchg))
+  rw [if_pos hcond]
+  rw [(constrain_fields op _).2.2.2]
+  have hres : ∀ (t : TS) (new : List Nat), (updateList op t new).results = new := by
+    intro t new
+    unfold updateList
+    split
+    · generalize (if t.results.length > 0 then currentItem t else new.head?) = prev
+      cases prev with
+      | none => rfl
+      | some j =>
+        simp only []
+        cases new.findIdx? (· == j) with
+        | some k => rfl
+        | none => simp only []; split <;> rfl
+    · rfl
+  rw [hres]
+  intro hmem
+  rw [List.mem_filter] at hmem
+  have := hmem.2
+  simp at this
+  exact this hi
 
 end Fzf.Props.C09
